@@ -9,14 +9,15 @@ def run(tier, only=None):
         outer = (c - 1) // 11 + 2
         q.append({"name": "c13.step.c%d" % c, "cfile": "glue_c13.c",
                   "defs": ["-DCMAX=64", "-DCFIX=%d" % c, "-DKMAX=1", "-DNPROG=1", "-DNCALLS=1", "-DGBUF=72"],
-                  "unwindset": {"nop_padding.1": outer}, "timeout": 1500 if tier == "quick" else 3600})
-    for c in ([5, 16] if tier == "quick" else [3, 5, 8, 16, 24]):
+                  "unwindset": {"nop_padding.1": outer}, "timeout": 800 if tier == "quick" else 3600})
+    for c in ([5] if tier == "quick" else [3, 5, 8, 16, 24]):
         outer = (c - 1) // 11 + 2
         q.append({"name": "c13.two_calls.c%d" % c, "cfile": "glue_c13.c",
                   "defs": ["-DCMAX=64", "-DCFIX=%d" % c, "-DKMAX=1", "-DNPROG=2", "-DNCALLS=2", "-DGBUF=56", "-DGLUE_NOWRITE"],
-                  "unwindset": {"nop_padding.1": outer}, "timeout": 1500 if tier == "quick" else 3600})
+                  "unwindset": {"nop_padding.1": outer}, "timeout": 800 if tier == "quick" else 3600})
     q.append({"name": "c13.off", "cfile": "glue_c13.c",
-              "defs": ["-DCMAX=1", "-DCMIN=0", "-DKMAX=2", "-DNPROG=2", "-DNCALLS=2", "-DGBUF=48", "-DLMAX=4", "-DNFIXED=1"]})
+              "defs": ["-DCMAX=1", "-DCMIN=0", "-DKMAX=%d" % (1 if tier == "quick" else 2), "-DNPROG=2", "-DNCALLS=2", "-DGBUF=%d" % (32 if tier == "quick" else 48),
+                       "-DLMAX=4", "-DNFIXED=1"], "timeout": 800 if tier == "quick" else 3600})
     return gluechecks.run_queries(
         "C13", tier, q,
         "per chunk size c (one query each): buffer length 0..72, start offset 0..n, one abstract instruction of length 1..13 with arbitrary bytes (step query; covers every position relative to a boundary), mov-immediate mode; two-call queries: two programs of up to 2 lines, second call with fitting kept, or switched off (c2 in {0,1,c}); c13.off: chunk sizes 0 and 1",
